@@ -354,7 +354,11 @@ class MakeDag:
                 d0, v0 = T.dom, T.val
                 T.havoc()
                 tt, jj = bv("t!up", Id), bv("j!up", I)
-                hit = lambda t_: z3.Exists([jj], z3.And(jj >= 0, jj < other.n, other.ids[jj] == t_))  # noqa: E731
+                # "tt is one of the registered ids", Skolemised: pos(tt) is an index at which it occurs (no existential)
+                pos = C.freshf("position_in_update", Id, I)
+                C.ghost["update_pos"] = pos
+                hit = lambda t_: z3.And(pos(t_) >= 0, pos(t_) < other.n, other.ids[pos(t_)] == t_)  # noqa: E731
+                C.assume(z3.ForAll([jj], z3.Implies(z3.And(jj >= 0, jj < other.n), hit(other.ids[jj]))))
                 C.assume(z3.ForAll([tt], z3.And(T.dom[tt] == z3.Or(d0[tt], hit(tt)), z3.Implies(z3.And(d0[tt], z3.Not(hit(tt))), T.val[tt] == v0[tt]), z3.Implies(hit(tt), T.val[tt] == holder_obj(tt)))))
 
         tables = _Tables()
@@ -412,8 +416,16 @@ class MakeDag:
         for nm, goal, serves in self.inv(MakeDag.SHolders(n1 + n2, z3.Lambda([j], ei)), n2):
             C.check(goal, f"{p}.C01.{nm}", serves, "post")
         tt = bv("t!mp", Id)
-        is_h = lambda t_: z3.Or(z3.Exists([j], z3.And(j >= 0, j < n1, hold(pname(j)) == t_)), z3.Exists([j], z3.And(j >= 0, j < n2, hold(dname(j)) == t_)))  # noqa: E731
-        C.check(z3.ForAll([tt], T.dom[tt] == z3.Or(t0[0][tt], is_h(tt))), f"{p}.C01.exactly_the_holders_are_registered_in_the_node_table", {"C01", "C03"}, "post")
+        # "t is the holder of parameter number j" with ONE index over the whole signature (the same shape as the update's
+        # own definition: the solver matches the two existentials index by index instead of guessing j - n1)
+        holder_at = lambda q: z3.If(q < n1, hold(pname(q)), hold(dname(q - n1)))  # noqa: E731
+        is_h = lambda t_: z3.Exists([j], z3.And(j >= 0, j < n1 + n2, holder_at(j) == t_))  # noqa: E731
+        pos = C.ghost.get("update_pos")
+        C.check(z3.ForAll([j], z3.Implies(z3.And(j >= 0, j < n1 + n2), T.dom[holder_at(j)])), f"{p}.C01.every_holder_is_registered_in_the_node_table", {"C01", "C03"}, "post")
+        if pos is None:
+            C.check(z3.ForAll([tt], z3.Implies(T.dom[tt], z3.Or(t0[0][tt], is_h(tt)))), f"{p}.C01.nothing_but_the_holders_is_registered", {"C01", "C03"}, "post")
+        else:
+            C.check(z3.ForAll([tt], z3.Implies(z3.And(T.dom[tt], z3.Not(t0[0][tt])), z3.And(pos(tt) >= 0, pos(tt) < n1 + n2, holder_at(pos(tt)) == tt))), f"{p}.C01.nothing_but_the_holders_is_registered", {"C01", "C03"}, "post")
         C.check(z3.BoolVal(log["wrap"] == [(func, "RETURNED")]), f"{p}.C01.the_returned_value_is_wrapped_into_return_references", {"C01"}, "post")
         ok2 = len(log["ctor"]) == 1 and log["ctor"][0][0] == case and r == f"THE-{case}-DAG"
         C.check(z3.BoolVal(ok2), f"{p}.C17.flavour_follows_is_async", {"C17", "C01"}, "post")
